@@ -2,9 +2,10 @@
   C13 (3/4) — `from_molecule` (margin) and `closest_point`.
 
   Model: `Cubic.fromMolecule`, `Cubic.closestPoint` at `K = ℝ` (`Rounding ℝ`: `⌈·⌉`, `⌊·⌋`, nearest
-  integer with ties to even).  Both functions violate the property as coded; the model follows the
-  code, the negations are proved at concrete witnesses, and what does hold is proved as `_partial` /
-  under the explicit hypotheses `0 < aᵢ` and "rounded coordinates inside the grid".
+  integer with ties to even).  `from_molecule` violates the property as coded: the model follows the
+  code, the negations are proved at concrete witnesses, what does hold is proved as `_partial`/`_centred`.
+  `closest_point` (after the repairs 87e136a signed step, e7cb5e5 clipping) is proved at full strength:
+  every non-zero diagonal axes, every query point.
 -/
 import GridVerif.Props.C13.Index
 import GridVerif.Props.C13.Weights
@@ -76,6 +77,110 @@ theorem from_molecule_margin_partial (mx mn c h e : ℝ) (hh : 0 < h) (hc : c = 
   subst ho hc
   constructor <;> nlinarith
 
+theorem foldl_maxK_ge (l : List ℝ) (a : ℝ) : a ≤ l.foldl maxK a ∧ ∀ x ∈ l, x ≤ l.foldl maxK a := by
+  induction l generalizing a with
+  | nil => simp
+  | cons b t ih =>
+    simp only [List.foldl_cons, List.mem_cons]
+    obtain ⟨h1, h2⟩ := ih (maxK a b)
+    have hab : a ≤ maxK a b ∧ b ≤ maxK a b := by
+      unfold maxK; split <;> constructor <;> linarith
+    refine ⟨le_trans hab.1 h1, ?_⟩
+    rintro x (rfl | hx)
+    · exact le_trans hab.2 h1
+    · exact h2 x hx
+
+theorem foldl_minK_le (l : List ℝ) (a : ℝ) : l.foldl minK a ≤ a ∧ ∀ x ∈ l, l.foldl minK a ≤ x := by
+  induction l generalizing a with
+  | nil => simp
+  | cons b t ih =>
+    simp only [List.foldl_cons, List.mem_cons]
+    obtain ⟨h1, h2⟩ := ih (minK a b)
+    have hab : minK a b ≤ a ∧ minK a b ≤ b := by
+      unfold minK; split <;> constructor <;> linarith
+    refine ⟨le_trans h1 hab.1, ?_⟩
+    rintro x (rfl | hx)
+    · exact le_trans h1 hab.2
+    · exact h2 x hx
+
+/-- the integer → real conversion written with `NatCast`/`Neg` in the model is the cast. -/
+theorem half_cast' (s : ℤ) (h : ℝ) :
+    (if s < 0 then -(2⁻¹ * |(s : ℝ)| * h) else 2⁻¹ * ((s.toNat : ℕ) : ℝ) * h) = 1 / 2 * (s : ℝ) * h := by
+  split
+  · have hs : (s : ℝ) < 0 := by exact_mod_cast (by assumption : s < 0)
+    rw [abs_of_neg hs]; ring
+  · have h0 : 0 ≤ s := by omega
+    have := Int.toNat_of_nonneg h0
+    have e : ((s.toNat : ℕ) : ℝ) = (s : ℝ) := by exact_mod_cast congrArg (Int.cast : ℤ → ℝ) this
+    rw [e]; ring
+
+set_option maxRecDepth 4000 in
+/-- `from_molecule(rotate=False)` in closed form, for every molecule (first atom split off to express
+non-emptiness): per axis `n_d = ⌈(max_d − min_d + 2·ext)/h⌉` points, origin `c_d − n_d·h/2` with `c` the
+centre of charge. -/
+theorem from_molecule_spec (nums : List ℝ) (x0 y0 z0 : ℝ) (rest : List (List ℝ)) (h e : ℝ)
+    (hlen : nums.length = rest.length + 1) (h3 : ∀ r ∈ rest, r.length = 3) :
+    let coords := [x0, y0, z0] :: rest
+    let c : Nat → ℝ := fun d => (List.zipWith (· * ·) nums (column coords d)).sum / nums.sum
+    let mx : Nat → ℝ := fun d => match column coords d with | [] => 0 | a :: t => t.foldl maxK a
+    let mn : Nat → ℝ := fun d => match column coords d with | [] => 0 | a :: t => t.foldl minK a
+    let n : Nat → ℤ := fun d => ⌈(mx d - mn d + 2 * e) / h⌉
+    fromMolecule nums coords h e none
+      = .ok ([c 0 - 1 / 2 * n 0 * h, c 1 - 1 / 2 * n 1 * h, c 2 - 1 / 2 * n 2 * h],
+             [[h, 0, 0], [0, h, 0], [0, 0, h]], [n 0, n 1, n 2]) := by
+  intro coords c mx mn n
+  unfold fromMolecule
+  simp only [coords]
+  simp [hlen, sumK_eq_sum, column, List.range_succ, bind, Except.bind, pure, Except.pure, ceilI_eq,
+    c, mx, mn, n]
+  have hno : ¬ ∃ x ∈ rest, ¬ x.length = 3 := by intro ⟨x, hx, hne⟩; exact hne (h3 x hx)
+  rw [if_neg hno]
+  simp only [half_cast']
+  simp [coords]
+
+theorem column_bounds (coords : List (List ℝ)) (d : Nat) (r : List ℝ) (hr : r ∈ coords) (rd : ℝ)
+    (hrd : r[d]? = some rd) :
+    (match column coords d with | [] => 0 | a :: t => t.foldl minK a) ≤ rd ∧
+    rd ≤ (match column coords d with | [] => 0 | a :: t => t.foldl maxK a) := by
+  have hm : rd ∈ column coords d := by
+    unfold column; exact List.mem_filterMap.mpr ⟨r, hr, hrd⟩
+  cases hcol : column coords d with
+  | nil => rw [hcol] at hm; cases hm
+  | cons a t =>
+    rw [hcol] at hm
+    simp only
+    rcases List.mem_cons.mp hm with rfl | ht
+    · exact ⟨(foldl_minK_le t rd).1, (foldl_maxK_ge t rd).1⟩
+    · exact ⟨(foldl_minK_le t a).2 rd ht, (foldl_maxK_ge t a).2 rd ht⟩
+
+/-- **What holds, for every molecule** (`rotate=False`): if on each axis the centre of charge is the
+centre of the extent of the nuclei (e.g. molecules symmetric about their centre of charge), the grid
+built by the code contains every nucleus with margin ≥ `ext` below and ≥ `ext − spacing` above. -/
+theorem from_molecule_margin_centred (nums : List ℝ) (x0 y0 z0 : ℝ) (rest : List (List ℝ)) (h e : ℝ)
+    (hlen : nums.length = rest.length + 1) (h3 : ∀ r ∈ rest, r.length = 3) (hh : 0 < h)
+    (hc : ∀ d, d < 3 →
+      (List.zipWith (· * ·) nums (column ([x0, y0, z0] :: rest) d)).sum / nums.sum
+        = ((match column ([x0, y0, z0] :: rest) d with | [] => 0 | a :: t => t.foldl maxK a)
+           + (match column ([x0, y0, z0] :: rest) d with | [] => 0 | a :: t => t.foldl minK a)) / 2) :
+    ∃ origin axes shape, fromMolecule nums ([x0, y0, z0] :: rest) h e none = .ok (origin, axes, shape) ∧
+      MarginOK origin shape h e ([x0, y0, z0] :: rest) := by
+  have spec := from_molecule_spec nums x0 y0 z0 rest h e hlen h3
+  simp only at spec
+  refine ⟨_, _, _, spec, ?_⟩
+  intro r hr d
+  have hl : r.length = 3 := by
+    rcases List.mem_cons.mp hr with rfl | h'
+    · rfl
+    · exact h3 r h'
+  have hd : d.val < r.length := by rw [hl]; exact d.isLt
+  have hrd : r[d.val]? = some r[d.val] := List.getElem?_eq_getElem hd
+  obtain ⟨hlo, hhi⟩ := column_bounds _ d.val r hr _ hrd
+  have key := from_molecule_margin_partial _ _ _ h e hh (hc d.val d.isLt) _ rfl _ rfl r[d.val] hlo hhi
+  refine ⟨r[d.val], _, _, hrd, ?_, ?_, ?_, key.2⟩
+  · fin_cases d <;> rfl
+  · fin_cases d <;> rfl
+  · have := key.1; linarith
+
 /-- the hypothesis of `from_molecule_margin_partial` is met e.g. by H₂ at x = ±1 (spacing 1,
 extension 1: the pinned test of the repository), where the code gives origin −2 and 4 points. -/
 example : fromMolecule [(1 : ℝ), 1] [[1, 0, 0], [-1, 0, 0]] 1 1 none
@@ -89,7 +194,37 @@ example : fromMolecule [(1 : ℝ), 1] [[1, 0, 0], [-1, 0, 0]] 1 1 none
   try rw [h2]
   norm_num
 
-/-! ### `closest_point` -/
+set_option maxRecDepth 4000 in
+/-- **`from_molecule(rotate=True)` lays the box out in the wrong frame.** Four unit charges at
+(0,±5,0), (0,0,±2) (centre of charge = centre of the extent = 0); `eigh` returns the eigenvector
+matrix `v` with columns e_y, e_z, e_x. The code measures the extent along the *columns* of `v`
+(10, 4, 0 → shape (12,6,2) for spacing 1, extension 1) but uses the *rows* of `v` (e_z, e_x, e_y) as
+grid axes: the axis with 2 points runs along y, where the nuclei sit at ±5. -/
+theorem from_molecule_rotate_witness :
+    fromMolecule [(1 : ℝ), 1, 1, 1] [[0, 5, 0], [0, -5, 0], [0, 0, 2], [0, 0, -2]] 1 1
+        (some [[0, 0, 1], [1, 0, 0], [0, 1, 0]])
+      = .ok ([-3, -1, -6], [[0, 0, 1], [1, 0, 0], [0, 1, 0]], [12, 6, 2]) := by
+  simp [fromMolecule, sumK_eq_sum, column, maxK, minK, List.range_succ, bind, Except.bind, pure, Except.pure,
+    ceilI_eq]
+  have h12 : (12 : ℤ).toNat = 12 := rfl
+  have h6 : (6 : ℤ).toNat = 6 := rfl
+  have h2 : (2 : ℤ).toNat = 2 := rfl
+  norm_num
+  try rw [h12]
+  try rw [h6]
+  try rw [h2]
+  norm_num
+
+/-- In that grid the nucleus (0,5,0) has the integer grid coordinates (6,3,6):
+`origin + 6·a₀ + 3·a₁ + 6·a₂ = (0,5,0)`; the third axis has only 2 points (coordinates 0 and 1), so the
+nucleus lies 5 spacings outside the box although the molecule is centred. -/
+theorem from_molecule_rotate_fails_at :
+    pointAt [(-3 : ℝ), -1, -6] [[0, 0, 1], [1, 0, 0], [0, 1, 0]] [6, 3, 6] = [0, 5, 0] ∧ ¬ (6 ≤ 2 - 1) := by
+  constructor
+  · simp [pointAt]; norm_num
+  · omega
+
+/-! ### `closest_point` (code after the repairs 87e136a, e7cb5e5: signed step, clipping) -/
 
 theorem isDiagonal_diag3 (a0 a1 a2 : ℝ) : isDiagonal [[a0, 0, 0], [0, a1, 0], [0, 0, a2]] = true := by
   simp [isDiagonal, List.range_succ]
@@ -97,104 +232,170 @@ theorem isDiagonal_diag3 (a0 a1 a2 : ℝ) : isDiagonal [[a0, 0, 0], [0, a1, 0], 
 theorem isDiagonal_diag2 (a0 a1 : ℝ) : isDiagonal [[a0, 0], [0, a1]] = true := by
   simp [isDiagonal, List.range_succ]
 
-theorem vecNorm_diag3 (a : ℝ) :
-    vecNorm [a, 0, 0] = |a| ∧ vecNorm [0, a, 0] = |a| ∧ vecNorm [0, 0, a] = |a| := by
-  simp [vecNorm, sumK_eq_sum, Elem.sqrt, Real.sqrt_mul_self_eq_abs]
+theorem diagonal_diag3 (a0 a1 a2 : ℝ) : diagonal [[a0, 0, 0], [0, a1, 0], [0, 0, a2]] = [a0, a1, a2] := by
+  simp [diagonal, List.range_succ]
 
-theorem vecNorm_diag2 (a : ℝ) : vecNorm [a, 0] = |a| ∧ vecNorm [0, a] = |a| := by
-  simp [vecNorm, sumK_eq_sum, Elem.sqrt, Real.sqrt_mul_self_eq_abs]
+theorem diagonal_diag2 (a0 a1 : ℝ) : diagonal [[a0, 0], [0, a1]] = [a0, a1] := by
+  simp [diagonal, List.range_succ]
 
-/-- `closest_point` on diagonal axes, as coded: the rounded quotient by `|aᵢ|` (the norm of the
-axis), fed to the stride code — no sign, no range check. -/
+/-- `closest_point` on diagonal axes, as coded: quotient by the signed step, rounding, clipping to
+`[0, sᵢ−1]`, stride code. `rnd` is `rint` (`"closest"`) or `floor` (`"origin"`). -/
 theorem closest_eval3 (o0 o1 o2 a0 a1 a2 p0 p1 p2 : ℝ) (s0 s1 s2 : Nat) :
     closestPoint [o0, o1, o2] [[a0, 0, 0], [0, a1, 0], [0, 0, a2]] [s0, s1, s2] [p0, p1, p2] (some .closest)
-      = .ok ((Rounding.rintI ((p0 - o0) / |a0|) : ℤ) * ((s1 : ℤ) * s2) + Rounding.rintI ((p1 - o1) / |a1|) * s2
-          + Rounding.rintI ((p2 - o2) / |a2|)) := by
-  unfold closestPoint
-  rw [isDiagonal_diag3]
-  simp only [List.map_cons, List.map_nil, (vecNorm_diag3 _).1, (vecNorm_diag3 _).2.1, (vecNorm_diag3 _).2.2,
-    List.length_cons, List.length_nil, List.range_succ, List.range_zero]
-  simp [bind, Except.bind, pure, Except.pure, c2i3]
+      = .ok (clipIdx (Rounding.rintI ((p0 - o0) / a0)) s0 * ((s1 : ℤ) * s2)
+          + clipIdx (Rounding.rintI ((p1 - o1) / a1)) s1 * s2 + clipIdx (Rounding.rintI ((p2 - o2) / a2)) s2) ∧
+    closestPoint [o0, o1, o2] [[a0, 0, 0], [0, a1, 0], [0, 0, a2]] [s0, s1, s2] [p0, p1, p2] (some .origin)
+      = .ok (clipIdx (Rounding.floorI ((p0 - o0) / a0)) s0 * ((s1 : ℤ) * s2)
+          + clipIdx (Rounding.floorI ((p1 - o1) / a1)) s1 * s2 + clipIdx (Rounding.floorI ((p2 - o2) / a2)) s2) := by
+  constructor <;>
+  · unfold closestPoint
+    rw [isDiagonal_diag3, diagonal_diag3]
+    simp [List.range_succ, bind, Except.bind, pure, Except.pure, c2i3]
 
 theorem closest_eval2 (o0 o1 a0 a1 p0 p1 : ℝ) (s0 s1 : Nat) :
     closestPoint [o0, o1] [[a0, 0], [0, a1]] [s0, s1] [p0, p1] (some .closest)
-      = .ok ((Rounding.rintI ((p0 - o0) / |a0|) : ℤ) * (s1 : ℤ) + Rounding.rintI ((p1 - o1) / |a1|)) := by
-  unfold closestPoint
-  rw [isDiagonal_diag2]
-  simp only [List.map_cons, List.map_nil, (vecNorm_diag2 _).1, (vecNorm_diag2 _).2,
-    List.length_cons, List.length_nil, List.range_succ, List.range_zero]
-  simp [bind, Except.bind, pure, Except.pure, c2i2]
+      = .ok (clipIdx (Rounding.rintI ((p0 - o0) / a0)) s0 * (s1 : ℤ) + clipIdx (Rounding.rintI ((p1 - o1) / a1)) s1) ∧
+    closestPoint [o0, o1] [[a0, 0], [0, a1]] [s0, s1] [p0, p1] (some .origin)
+      = .ok (clipIdx (Rounding.floorI ((p0 - o0) / a0)) s0 * (s1 : ℤ) + clipIdx (Rounding.floorI ((p1 - o1) / a1)) s1) := by
+  constructor <;>
+  · unfold closestPoint
+    rw [isDiagonal_diag2, diagonal_diag2]
+    simp [List.range_succ, bind, Except.bind, pure, Except.pure, c2i2]
 
-/-- one axis: the rounded fractional coordinate is a nearest node coordinate. -/
-theorem axis_nearest (p o a : ℝ) (ha : 0 < a) (z : ℤ) :
-    (p - (o + (Rounding.rintI ((p - o) / a) : ℤ) * a)) ^ 2 ≤ (p - (o + z * a)) ^ 2 := by
-  have key := rintI_nearest ((p - o) / a) z
-  have e1 : p - (o + (Rounding.rintI ((p - o) / a) : ℤ) * a) = a * ((p - o) / a - (Rounding.rintI ((p - o) / a) : ℤ)) := by
-    field_simp; ring
-  have e2 : p - (o + z * a) = a * ((p - o) / a - z) := by field_simp; ring
-  rw [e1, e2, mul_pow, mul_pow]
-  exact mul_le_mul_of_nonneg_left (sq_le_sq.mpr key) (by positivity)
+theorem clipIdx_range (c : ℤ) (s : Nat) (hs : 1 ≤ s) : 0 ≤ clipIdx c s ∧ clipIdx c s < s := by
+  unfold clipIdx; omega
 
-/-- **Nearest node, 3-D, positive diagonal axes**: if the rounded coordinates lie inside the grid, the
-returned number is the flat index of a node `(i,j,k)` of the grid, and that node is at least as close
-to the query point as *every* lattice node `origin + z₀a₀ + z₁a₁ + z₂a₂` (in particular every node of
-the grid). Per-axis separability; ties go to the even coordinate. -/
+/-- the nearest integer is within 1/2. -/
+theorem rintI_half (x : ℝ) : |x - (Rounding.rintI x : ℤ)| ≤ 1 / 2 := by
+  have h1 := rintI_nearest x (Rounding.rintI x + 1)
+  have h2 := rintI_nearest x (Rounding.rintI x - 1)
+  push_cast at h1 h2
+  rw [abs_le]
+  constructor
+  · by_contra hc
+    have hlt : x - (Rounding.rintI x : ℤ) < -(1 / 2) := by linarith [not_le.mp hc]
+    have hb : |x - ((Rounding.rintI x : ℤ) - 1)| < -(x - (Rounding.rintI x : ℤ)) := by
+      rw [abs_lt]; constructor <;> linarith
+    rw [abs_of_neg (by linarith)] at h2
+    linarith
+  · by_contra hc
+    have hgt : 1 / 2 < x - (Rounding.rintI x : ℤ) := by linarith [not_le.mp hc]
+    have hb : |x - ((Rounding.rintI x : ℤ) + 1)| < x - (Rounding.rintI x : ℤ) := by
+      rw [abs_lt]; constructor <;> linarith
+    rw [abs_of_pos (by linarith)] at h1
+    linarith
+
+/-- One axis, any sign of the step, any query: the clipped rounded fractional coordinate is the
+coordinate of a node of the axis that is at least as close as every node `0 … s−1` of the axis. -/
+theorem axis_nearest_clip (p o a : ℝ) (ha : a ≠ 0) (s : Nat) (hs : 1 ≤ s) (m : Nat) (hm : m < s) :
+    (p - (o + (clipIdx (Rounding.rintI ((p - o) / a)) s : ℤ) * a)) ^ 2 ≤ (p - (o + (m : ℝ) * a)) ^ 2 := by
+  set x := (p - o) / a with hx
+  set r : ℤ := Rounding.rintI x with hr
+  have e : ∀ z : ℝ, p - (o + z * a) = a * (x - z) := by intro z; rw [hx]; field_simp; ring
+  rw [e, e, mul_pow, mul_pow]
+  apply mul_le_mul_of_nonneg_left _ (by positivity)
+  rw [sq_le_sq]
+  have hhalf := rintI_half x
+  rw [← hr] at hhalf
+  have hhalf' := abs_le.mp hhalf
+  have hmr : (m : ℝ) ≤ (s : ℝ) - 1 := by
+    have : (m : ℝ) + 1 ≤ s := by exact_mod_cast hm
+    linarith
+  have hm0 : (0 : ℝ) ≤ m := by positivity
+  unfold clipIdx
+  rcases lt_trichotomy r 0 with hneg | hzero | hpos
+  · -- rounded coordinate below the grid: clipped to 0, x ≤ -1/2
+    have hc : min (max r 0) ((s : ℤ) - 1) = 0 := by omega
+    rw [hc]
+    have hr1 : (r : ℝ) ≤ -1 := by exact_mod_cast (by omega : r ≤ -1)
+    have hx0 : x ≤ 0 := by linarith [hhalf'.2]
+    push_cast
+    rw [sub_zero, abs_of_nonpos hx0, abs_of_nonpos (by linarith)]
+    linarith
+  · have hc : min (max r 0) ((s : ℤ) - 1) = 0 := by omega
+    rw [hc]
+    have := rintI_nearest x (m : ℤ)
+    rw [← hr, hzero] at this
+    simpa using this
+  · by_cases hin : r ≤ (s : ℤ) - 1
+    · have hc : min (max r 0) ((s : ℤ) - 1) = r := by omega
+      rw [hc]
+      have := rintI_nearest x (m : ℤ)
+      rw [← hr] at this
+      simpa using this
+    · -- above the grid: clipped to s-1, x ≥ s - 1/2
+      have hc : min (max r 0) ((s : ℤ) - 1) = (s : ℤ) - 1 := by omega
+      rw [hc]
+      have hr1 : (s : ℝ) ≤ (r : ℝ) := by exact_mod_cast (by omega : (s : ℤ) ≤ r)
+      have hxs : (s : ℝ) - 1 ≤ x := by linarith [hhalf'.1]
+      push_cast
+      rw [abs_of_nonneg (by linarith), abs_of_nonneg (by linarith)]
+      linarith
+
+/-- **Nearest node, 3-D, full strength**: for every non-zero diagonal axes (either sign), every shape
+(≥ 1 per axis; the constructor enforces ≥ 2) and *every* query point, inside or outside the box, the
+returned number is the flat index (of the generated stride code, inverted by `index_to_coordinates`) of a
+node `(i,j,k)` of the grid, and no node of the grid is closer to the query point. -/
 theorem closest_point_spec3 (o0 o1 o2 a0 a1 a2 p0 p1 p2 : ℝ) (s0 s1 s2 : Nat)
-    (h0 : 0 < a0) (h1 : 0 < a1) (h2 : 0 < a2) (i j k : Nat)
-    (hi : (Rounding.rintI ((p0 - o0) / a0) : ℤ) = i) (hj : (Rounding.rintI ((p1 - o1) / a1) : ℤ) = j)
-    (hk : (Rounding.rintI ((p2 - o2) / a2) : ℤ) = k) (hi' : i < s0) (hj' : j < s1) (hk' : k < s2) :
-    closestPoint [o0, o1, o2] [[a0, 0, 0], [0, a1, 0], [0, 0, a2]] [s0, s1, s2] [p0, p1, p2] (some .closest)
+    (h0 : a0 ≠ 0) (h1 : a1 ≠ 0) (h2 : a2 ≠ 0) (hs0 : 1 ≤ s0) (hs1 : 1 ≤ s1) (hs2 : 1 ≤ s2) :
+    ∃ i j k : Nat, i < s0 ∧ j < s1 ∧ k < s2 ∧
+      closestPoint [o0, o1, o2] [[a0, 0, 0], [0, a1, 0], [0, 0, a2]] [s0, s1, s2] [p0, p1, p2] (some .closest)
         = .ok ((i * (s1 * s2) + j * s2 + k : Nat) : ℤ) ∧
-    indexToCoordinates 3 [(s0 : Int), s1, s2] ((i * (s1 * s2) + j * s2 + k : Nat) : ℤ) = .ok [(i : Int), j, k] ∧
-    ∀ z0 z1 z2 : ℤ,
-      (p0 - (o0 + i * a0)) ^ 2 + (p1 - (o1 + j * a1)) ^ 2 + (p2 - (o2 + k * a2)) ^ 2
-        ≤ (p0 - (o0 + z0 * a0)) ^ 2 + (p1 - (o1 + z1 * a1)) ^ 2 + (p2 - (o2 + z2 * a2)) ^ 2 := by
-  refine ⟨?_, ?_, ?_⟩
-  · rw [closest_eval3, abs_of_pos h0, abs_of_pos h1, abs_of_pos h2, hi, hj, hk]
+      indexToCoordinates 3 [(s0 : Int), s1, s2] ((i * (s1 * s2) + j * s2 + k : Nat) : ℤ) = .ok [(i : Int), j, k] ∧
+      ∀ i' j' k' : Nat, i' < s0 → j' < s1 → k' < s2 →
+        (p0 - (o0 + i * a0)) ^ 2 + (p1 - (o1 + j * a1)) ^ 2 + (p2 - (o2 + k * a2)) ^ 2
+          ≤ (p0 - (o0 + i' * a0)) ^ 2 + (p1 - (o1 + j' * a1)) ^ 2 + (p2 - (o2 + k' * a2)) ^ 2 := by
+  obtain ⟨c0n, c0l⟩ := clipIdx_range (Rounding.rintI ((p0 - o0) / a0)) s0 hs0
+  obtain ⟨c1n, c1l⟩ := clipIdx_range (Rounding.rintI ((p1 - o1) / a1)) s1 hs1
+  obtain ⟨c2n, c2l⟩ := clipIdx_range (Rounding.rintI ((p2 - o2) / a2)) s2 hs2
+  obtain ⟨i, hi⟩ := Int.eq_ofNat_of_zero_le c0n
+  obtain ⟨j, hj⟩ := Int.eq_ofNat_of_zero_le c1n
+  obtain ⟨k, hk⟩ := Int.eq_ofNat_of_zero_le c2n
+  have hi' : i < s0 := by omega
+  have hj' : j < s1 := by omega
+  have hk' : k < s2 := by omega
+  refine ⟨i, j, k, hi', hj', hk', ?_, ?_, ?_⟩
+  · rw [(closest_eval3 ..).1, hi, hj, hk]
     exact congrArg Except.ok (by push_cast; ring)
   · obtain ⟨idx, _, hidx, _, h⟩ := coords_roundtrip3 s0 s1 s2 i j k hi' hj' hk' 0
     rw [hidx] at h; exact h
-  · intro z0 z1 z2
-    have e0 := axis_nearest p0 o0 a0 h0 z0
-    have e1 := axis_nearest p1 o1 a1 h1 z1
-    have e2 := axis_nearest p2 o2 a2 h2 z2
+  · intro i' j' k' hi'' hj'' hk''
+    have e0 := axis_nearest_clip p0 o0 a0 h0 s0 hs0 i' hi''
+    have e1 := axis_nearest_clip p1 o1 a1 h1 s1 hs1 j' hj''
+    have e2 := axis_nearest_clip p2 o2 a2 h2 s2 hs2 k' hk''
     rw [hi] at e0; rw [hj] at e1; rw [hk] at e2
     push_cast at e0 e1 e2
     linarith
 
-/-- **Nearest node, 2-D, positive diagonal axes.** -/
+/-- **Nearest node, 2-D, full strength.** -/
 theorem closest_point_spec2 (o0 o1 a0 a1 p0 p1 : ℝ) (s0 s1 : Nat)
-    (h0 : 0 < a0) (h1 : 0 < a1) (i j : Nat)
-    (hi : (Rounding.rintI ((p0 - o0) / a0) : ℤ) = i) (hj : (Rounding.rintI ((p1 - o1) / a1) : ℤ) = j)
-    (hi' : i < s0) (hj' : j < s1) :
-    closestPoint [o0, o1] [[a0, 0], [0, a1]] [s0, s1] [p0, p1] (some .closest)
-        = .ok ((i * s1 + j : Nat) : ℤ) ∧
-    indexToCoordinates 2 [(s0 : Int), s1] ((i * s1 + j : Nat) : ℤ) = .ok [(i : Int), j] ∧
-    ∀ z0 z1 : ℤ,
-      (p0 - (o0 + i * a0)) ^ 2 + (p1 - (o1 + j * a1)) ^ 2
-        ≤ (p0 - (o0 + z0 * a0)) ^ 2 + (p1 - (o1 + z1 * a1)) ^ 2 := by
-  refine ⟨?_, ?_, ?_⟩
-  · rw [closest_eval2, abs_of_pos h0, abs_of_pos h1, hi, hj]
+    (h0 : a0 ≠ 0) (h1 : a1 ≠ 0) (hs0 : 1 ≤ s0) (hs1 : 1 ≤ s1) :
+    ∃ i j : Nat, i < s0 ∧ j < s1 ∧
+      closestPoint [o0, o1] [[a0, 0], [0, a1]] [s0, s1] [p0, p1] (some .closest) = .ok ((i * s1 + j : Nat) : ℤ) ∧
+      indexToCoordinates 2 [(s0 : Int), s1] ((i * s1 + j : Nat) : ℤ) = .ok [(i : Int), j] ∧
+      ∀ i' j' : Nat, i' < s0 → j' < s1 →
+        (p0 - (o0 + i * a0)) ^ 2 + (p1 - (o1 + j * a1)) ^ 2
+          ≤ (p0 - (o0 + i' * a0)) ^ 2 + (p1 - (o1 + j' * a1)) ^ 2 := by
+  obtain ⟨c0n, c0l⟩ := clipIdx_range (Rounding.rintI ((p0 - o0) / a0)) s0 hs0
+  obtain ⟨c1n, c1l⟩ := clipIdx_range (Rounding.rintI ((p1 - o1) / a1)) s1 hs1
+  obtain ⟨i, hi⟩ := Int.eq_ofNat_of_zero_le c0n
+  obtain ⟨j, hj⟩ := Int.eq_ofNat_of_zero_le c1n
+  have hi' : i < s0 := by omega
+  have hj' : j < s1 := by omega
+  refine ⟨i, j, hi', hj', ?_, ?_, ?_⟩
+  · rw [(closest_eval2 ..).1, hi, hj]
     exact congrArg Except.ok (by push_cast; ring)
   · obtain ⟨idx, _, hidx, _, h⟩ := coords_roundtrip2 s0 s1 i j hi' hj' 0
     rw [hidx] at h; exact h
-  · intro z0 z1
-    have e0 := axis_nearest p0 o0 a0 h0 z0
-    have e1 := axis_nearest p1 o1 a1 h1 z1
+  · intro i' j' hi'' hj''
+    have e0 := axis_nearest_clip p0 o0 a0 h0 s0 hs0 i' hi''
+    have e1 := axis_nearest_clip p1 o1 a1 h1 s1 hs1 j' hj''
     rw [hi] at e0; rw [hj] at e1
     push_cast at e0 e1
     linarith
 
-/-- Non-vacuity of `closest_point_spec3`: unit axes, shape (3,4,5), query (1, 2, 3): node (1,2,3). -/
-example : (Rounding.rintI (((1 : ℝ) - 0) / 1) : ℤ) = (1 : ℕ) ∧ (Rounding.rintI (((2 : ℝ) - 0) / 1) : ℤ) = (2 : ℕ)
-    ∧ (Rounding.rintI (((3 : ℝ) - 0) / 1) : ℤ) = (3 : ℕ) := by
-  refine ⟨?_, ?_, ?_⟩
-  · have := rintI_intCast 1; norm_num at this ⊢; exact this
-  · have := rintI_intCast 2; norm_num at this ⊢; exact this
-  · have := rintI_intCast 3; norm_num at this ⊢; exact this
-
-/-- The clause at full strength: for *every* diagonal (orthogonal) axes and every query point the
-returned value is the flat index of a nearest node of the grid. -/
+/-- The clause at full strength: for *every* diagonal (orthogonal) axes of either sign and every query
+point the returned value is the flat index of a nearest node of the grid. -/
 def closest_point_full : Prop :=
   ∀ (o0 o1 o2 a0 a1 a2 p0 p1 p2 : ℝ) (s0 s1 s2 : Nat), a0 ≠ 0 → a1 ≠ 0 → a2 ≠ 0 →
     2 ≤ s0 → 2 ≤ s1 → 2 ≤ s2 →
@@ -205,41 +406,49 @@ def closest_point_full : Prop :=
         (p0 - (o0 + i * a0)) ^ 2 + (p1 - (o1 + j * a1)) ^ 2 + (p2 - (o2 + k * a2)) ^ 2
           ≤ (p0 - (o0 + i' * a0)) ^ 2 + (p1 - (o1 + j' * a1)) ^ 2 + (p2 - (o2 + k' * a2)) ^ 2
 
-/-- **Negative diagonal axis**: origin 0, axes diag(−1, 1, 1), shape (3,3,3). The query point
-(−1, 0, 0) *is* the node (1,0,0) (flat index 9); the code divides by the norm of the axis and returns
-−9, which is not an index of the grid. -/
-theorem closest_point_negative_axis_fails_at :
-    closestPoint [(0 : ℝ), 0, 0] [[-1, 0, 0], [0, 1, 0], [0, 0, 1]] [3, 3, 3] [-1, 0, 0] (some .closest)
-      = .ok (-9) ∧
-    pointAt [(0 : ℝ), 0, 0] [[-1, 0, 0], [0, 1, 0], [0, 0, 1]] [1, 0, 0] = [-1, 0, 0] := by
-  constructor
-  · rw [closest_eval3]
-    have h1 := rintI_intCast (-1)
-    have h0 := rintI_intCast 0
-    norm_num at h1 h0 ⊢
-    rw [h1, h0]; norm_num
-  · simp [pointAt]
+/-- **The full clause holds for the code as it is now.** -/
+theorem closest_point_full_holds : closest_point_full := by
+  intro o0 o1 o2 a0 a1 a2 p0 p1 p2 s0 s1 s2 h0 h1 h2 hs0 hs1 hs2
+  obtain ⟨i, j, k, hi, hj, hk, hc, _, hn⟩ :=
+    closest_point_spec3 o0 o1 o2 a0 a1 a2 p0 p1 p2 s0 s1 s2 h0 h1 h2 (by omega) (by omega) (by omega)
+  exact ⟨i, j, k, hi, hj, hk, hc, hn⟩
 
-/-- **Query point outside the box**: unit axes, shape (3,3,3), query (0,0,3) (one step beyond the last
-node of the z axis). The code returns 3, the flat index of the node (0,1,0) at squared distance 10; the
-nearest node is (0,0,2) at squared distance 1. No clipping, no range check. -/
-theorem closest_point_outside_fails_at :
-    closestPoint [(0 : ℝ), 0, 0] [[1, 0, 0], [0, 1, 0], [0, 0, 1]] [3, 3, 3] [0, 0, 3] (some .closest) = .ok 3 ∧
-    indexToCoordinates 3 [3, 3, 3] 3 = .ok [0, 1, 0] ∧
-    ((0 : ℝ) - 0) ^ 2 + (0 - 1) ^ 2 + (3 - 0) ^ 2 = 10 ∧ ((0 : ℝ) - 0) ^ 2 + (0 - 0) ^ 2 + (3 - 2) ^ 2 = 1 := by
-  refine ⟨?_, by decide, by norm_num, by norm_num⟩
-  rw [closest_eval3]
-  have h3 := rintI_intCast 3
+/-- **`which="origin"`** (the bottom, left-most, down-most corner of the sub-cube holding the point):
+for a query whose fractional coordinates lie inside the grid the returned node `(i,j,k)` satisfies
+`i ≤ (p₀−o₀)/a₀ < i+1` etc.; outside the grid the floor is clipped to the boundary. -/
+theorem closest_point_origin_spec3 (o0 o1 o2 a0 a1 a2 p0 p1 p2 : ℝ) (s0 s1 s2 : Nat) (i j k : Nat)
+    (hi : i < s0) (hj : j < s1) (hk : k < s2)
+    (h0 : (i : ℝ) ≤ (p0 - o0) / a0 ∧ (p0 - o0) / a0 < i + 1)
+    (h1 : (j : ℝ) ≤ (p1 - o1) / a1 ∧ (p1 - o1) / a1 < j + 1)
+    (h2 : (k : ℝ) ≤ (p2 - o2) / a2 ∧ (p2 - o2) / a2 < k + 1) :
+    closestPoint [o0, o1, o2] [[a0, 0, 0], [0, a1, 0], [0, 0, a2]] [s0, s1, s2] [p0, p1, p2] (some .origin)
+      = .ok ((i * (s1 * s2) + j * s2 + k : Nat) : ℤ) := by
+  have fl : ∀ (x : ℝ) (n : Nat), (n : ℝ) ≤ x ∧ x < n + 1 → (Rounding.floorI x : ℤ) = n := by
+    intro x n h
+    rw [floorI_eq, Int.floor_eq_iff]
+    exact ⟨by exact_mod_cast h.1, by exact_mod_cast h.2⟩
+  rw [(closest_eval3 ..).2, fl _ i h0, fl _ j h1, fl _ k h2]
+  have c0 : clipIdx (i : ℤ) s0 = i := by unfold clipIdx; omega
+  have c1 : clipIdx (j : ℤ) s1 = j := by unfold clipIdx; omega
+  have c2 : clipIdx (k : ℤ) s2 = k := by unfold clipIdx; omega
+  rw [c0, c1, c2]
+  exact congrArg Except.ok (by push_cast; ring)
+
+/-- Regression witnesses of the two repaired defects: with axes diag(−1,1,1), shape (3,3,3) the query
+(−1,0,0) — the node (1,0,0) — now gives 9 (was −9), and with unit axes the query (0,0,3) outside the box
+gives the boundary node 2 = (0,0,2) (was 3 = (0,1,0)). -/
+theorem closest_point_repaired_at :
+    closestPoint [(0 : ℝ), 0, 0] [[-1, 0, 0], [0, 1, 0], [0, 0, 1]] [3, 3, 3] [-1, 0, 0] (some .closest) = .ok 9 ∧
+    closestPoint [(0 : ℝ), 0, 0] [[1, 0, 0], [0, 1, 0], [0, 0, 1]] [3, 3, 3] [0, 0, 3] (some .closest) = .ok 2 := by
+  have h1 := rintI_intCast 1
   have h0 := rintI_intCast 0
-  norm_num at h3 h0 ⊢
-  rw [h3, h0]; norm_num
-
-theorem closest_point_full_false : ¬ closest_point_full := by
-  intro h
-  obtain ⟨i, j, k, _, _, _, hc, _⟩ := h 0 0 0 (-1) 1 1 (-1) 0 0 3 3 3 (by norm_num) (by norm_num) (by norm_num)
-    (by omega) (by omega) (by omega)
-  rw [closest_point_negative_axis_fails_at.1] at hc
-  have : (-9 : ℤ) = ((i * (3 * 3) + j * 3 + k : Nat) : ℤ) := by simpa using hc
-  omega
+  have h3 := rintI_intCast 3
+  constructor
+  · rw [(closest_eval3 ..).1]
+    norm_num at h1 h0 ⊢
+    rw [h1, h0]; decide
+  · rw [(closest_eval3 ..).1]
+    norm_num at h3 h0 ⊢
+    rw [h3, h0]; decide
 
 end GridVerif.C13
